@@ -104,7 +104,8 @@ def run(chk, tier):
             chk.violation("%s: %s (%s; %s)" % (prob[0], p["id"], cat, p.get("mutation", {}).get("site", "")),
                           {"program_id": p["id"], "mutation": p.get("mutation"), "welltyped_by_TLC": ok, "rc": r["rc"],
                            "compiler_output": r["text"][:3000], "files_present": r["present"], "source": r["src"]},
-                          key={"kind": prob[0], "sig": prob[1], "catalogue": cat, "shapes": progcheck.shape_flags(p)})
+                          key={"kind": prob[0], "sig": prob[1], "catalogue": cat, "shapes": progcheck.shape_flags(p),
+                               "in_exit_value": bool(p.get("mutation", {}).get("in_exit_value"))})
     chk.traces += len(allp)
     chk.extra["by_catalogue"] = stats
     m = next((x for x in muts if not verdict[x["id"]]), None)
